@@ -67,3 +67,9 @@ Fixpoint json_size (j : json) : nat :=
   | JObj l => S (foldr (λ x acc, json_size x.2 + acc)%nat O l)
   | _ => 1%nat
   end.
+
+(** decidable equalities used by the in-kernel cross-check of List calls *)
+Global Instance lop_eq_dec : EqDecision lop.
+Proof. solve_decision. Defined.
+Global Instance clist_eq_dec : EqDecision clist.
+Proof. solve_decision. Defined.
